@@ -116,7 +116,7 @@ class TimeWorld:
         big = tier == 'thorough'
         frac = rng.random() < 0.35
         cfg = {'ttype': 'Fraction' if frac else 'int', 'n_inst': rng.choice([1, 2, 2, 3]), 'n_params': rng.choice([1, 2]),
-               'install': rng.choice(['class', 'instance']), 'avoid': sorted(avoid)}
+               'install': rng.choice(['class', 'instance']), 'avoid': sorted(avoid), 'child': rng.random() < 0.3}
         pool = [gen_spec(rng) for _ in range(rng.randint(1, 3))]
         cfg['gens'] = [[rng.choice(pool) if rng.random() < 0.6 else gen_spec(rng) for _ in range(cfg['n_params'])]
                        for _ in range(cfg['n_inst'])]
@@ -207,7 +207,10 @@ class TimeWorld:
             param.Dynamic.time_fn = clock
         counters = []
         names = ['x', 'y'][:cfg['n_params']]
-        H = type('H', (param.Parameterized,), {n: param.Number(default=0) for n in names})
+        ns_ = {n: param.Number(default=0) for n in names}
+        ns_['child'] = param.Parameter(default=None)
+        H = type('H', (param.Parameterized,), ns_)
+        child = bool(cfg.get('child')) and cfg['n_inst'] >= 2      # I0 holds I1 as a sub-object: I1's dynamic state is part of I0's
         insts = []
         # model of every (instance, parameter): spec, cache (value, time), pushed stack
         M = {}
@@ -218,6 +221,11 @@ class TimeWorld:
             insts.append(o)
         if cfg['install'] == 'instance':
             param.Dynamic.time_fn = clock     # generators constructed with time_fn=clock need the global flag check to pass
+        if child:
+            insts[0].child = insts[1]
+
+        def state_of(i):
+            return [i, 1] if (child and i == 0) else [i]
         for i, o in enumerate(insts):
             for j, n in enumerate(names):
                 spec = cfg['gens'][i % len(cfg['gens'])][j % len(cfg['gens'][0])]
@@ -396,20 +404,26 @@ class TimeWorld:
                     if got != exp:
                         viol('C19.clock', f"next(clock) gave {got!r}, expected {exp!r}", step)
                     visited.append(cm['t'])
+                elif k in ('push', 'pop', 'pp2') and child and i == 1:
+                    pass        # the sub-object's state is pushed and popped through its holder only
                 elif k == 'push':
                     insts[i].param._state_push()
-                    for n2 in names:
-                        m = M[(i, n2)]
-                        m['stack'].append((m['val'], m['time']))
+                    for i2 in state_of(i):
+                        for n2 in names:
+                            m = M[(i2, n2)]
+                            m['stack'].append((m['val'], m['time']))
+                    if len(state_of(i)) > 1:
+                        out.stats['probe.state_pushed_through_holder_of_subobject'] += 1
                 elif k == 'pop':
                     if M[(i, names[0])]['stack']:
                         insts[i].param._state_pop()
-                        for n2 in names:
-                            m = M[(i, n2)]
-                            m['val'], m['time'] = m['stack'].pop()
-                            v = insts[i].param.inspect_value(n2)
-                            if m['time'] is not None and not same(v, m['val']):
-                                viol('C19.push_pop', f"after state pop I{i}.{n2} holds {v!r}, it held {m['val']!r} at push", step)
+                        for i2 in state_of(i):
+                            for n2 in names:
+                                m = M[(i2, n2)]
+                                m['val'], m['time'] = m['stack'].pop()
+                                v = insts[i2].param.inspect_value(n2)
+                                if m['time'] is not None and not same(v, m['val']):
+                                    viol('C19.push_pop', f"after state pop of I{i}, I{i2}.{n2} holds {v!r}, it held {m['val']!r} at push", step)
                         out.stats['probe.pop_restored_cache'] += 1
                 elif k == 'pp2':
                     # read at t1, push, read at t2, push, read at t3, pop, pop, then read at t2 and t1 again
@@ -421,17 +435,20 @@ class TimeWorld:
                             do_read(step, i, n2, f"nested push/pop probe read at {tv} of")
                     at(op['t1'])
                     insts[i].param._state_push()
-                    for n2 in names:
-                        M[(i, n2)]['stack'].append((M[(i, n2)]['val'], M[(i, n2)]['time']))
+                    for i2 in state_of(i):
+                        for n2 in names:
+                            M[(i2, n2)]['stack'].append((M[(i2, n2)]['val'], M[(i2, n2)]['time']))
                     at(op['t2'])
                     insts[i].param._state_push()
-                    for n2 in names:
-                        M[(i, n2)]['stack'].append((M[(i, n2)]['val'], M[(i, n2)]['time']))
+                    for i2 in state_of(i):
+                        for n2 in names:
+                            M[(i2, n2)]['stack'].append((M[(i2, n2)]['val'], M[(i2, n2)]['time']))
                     at(op['t3'])
                     for _ in range(2):
                         insts[i].param._state_pop()
-                        for n2 in names:
-                            M[(i, n2)]['val'], M[(i, n2)]['time'] = M[(i, n2)]['stack'].pop()
+                        for i2 in state_of(i):
+                            for n2 in names:
+                                M[(i2, n2)]['val'], M[(i2, n2)]['time'] = M[(i2, n2)]['stack'].pop()
                     out.stats['probe.nested_push_pop'] += 1
                     at(op['t2'])
                     at(op['t1'])
